@@ -556,4 +556,194 @@ theorem visitM_edit (T : Table) (hT : StepsDistinct T) (a : Node → Act) (x : N
           | none => simp [eraseIdx_at_length]
           | some r' => simp [set_at_length]
 
+/-! ### the three edits of the property statement, at the level of `ASTVisitor.visit` -/
+
+/-- `p` is reached from `ASTVisitor.visit t` -/
+def ReachV (T : Table) (t : Node) (p : List (String × Option Nat)) : Prop :=
+  ∃ m, T.visit.lookup t.kind = some m ∧ Reach T m t p
+
+private theorem visit_edit (T : Table) (hT : StepsDistinct T) (a : Node → Act) (x t : Node)
+    (p : List (String × Option Nat)) (fuel : Nat) (o : Out Unit)
+    (hr : ReachV T t p) (hnd : (idsNode t).Nodup) (hx : Spec.nodeAt p t = some x)
+    (h : visit T (actAt x.id a) fuel t () = .ok o) :
+    ∃ fuel' mx ox, visitM T (actAt x.id a) fuel' mx x () = .ok ox ∧ Spec.editAt p (editOf ox) t = some o.ret := by
+  obtain ⟨m, hm, hreach⟩ := hr
+  simp only [visit, hm] at h
+  exact visitM_edit T hT a x p fuel m t o hreach hnd hx h
+
+private theorem actAt_enter_eq (i : Nat) (a : Node → Act) (n : Node) (s : Unit) (h : n.id = i) :
+    (actAt i a).enter n s = (a n, s) := by
+  simp [actAt, h]
+
+/-- **delete_at** — "returning nothing from enter removes exactly that member": for EVERY position `p` reached by the
+    implemented traversal in a tree with distinct identities, the visitor that returns `None` for the node at `p`
+    and changes nothing else turns `t` into `Spec.editAt p .delete t` (list member removed / single child set to
+    `None`; for `p = []` the visit returns `None`). -/
+theorem delete_at (T : Table) (hT : StepsDistinct T) (x t : Node) (p : List (String × Option Nat)) (fuel : Nat)
+    (o : Out Unit) (hr : ReachV T t p) (hnd : (idsNode t).Nodup) (hx : Spec.nodeAt p t = some x)
+    (h : visit T (actAt x.id fun _ => .delete) fuel t () = .ok o) :
+    Spec.editAt p .delete t = some o.ret := by
+  obtain ⟨f', mx, ox, hox, hed⟩ := visit_edit T hT _ x t p fuel o hr hnd hx h
+  cases f' with
+  | zero => simp [visitM] at hox
+  | succ f' =>
+    simp only [visitM, actAt_enter_eq x.id _ x () rfl, Res.ok.injEq] at hox
+    subst hox
+    simpa [editOf] using hed
+
+/-- **replace_at** — "returning a replacement substitutes exactly that node": the visitor that returns the fresh
+    node `r` (not containing the identity of `x`) for the node at `p` turns `t` into `Spec.editAt p (.replace r) t`. -/
+theorem replace_at (T : Table) (hT : StepsDistinct T) (x t r : Node) (p : List (String × Option Nat)) (fuel : Nat)
+    (o : Out Unit) (hr : ReachV T t p) (hnd : (idsNode t).Nodup) (hx : Spec.nodeAt p t = some x)
+    (hfresh : x.id ∉ idsNode r)
+    (h : visit T (actAt x.id fun _ => .replace r) fuel t () = .ok o) :
+    Spec.editAt p (.replace r) t = some o.ret := by
+  obtain ⟨f', mx, ox, hox, hed⟩ := visit_edit T hT _ x t p fuel o hr hnd hx h
+  cases f' with
+  | zero => simp [visitM] at hox
+  | succ f' =>
+    simp only [visitM, actAt_enter_eq x.id _ x () rfl] at hox
+    split at hox
+    · simp at hox
+    · rename_i steps hm
+      split at hox
+      · simp at hox
+      · simp at hox
+      · rename_i n2 s2 tr hrs
+        have e := runSteps_idP (callTarget_avoid T x.id _ f') r steps
+          (fun st _ y d hg hd => avoid_kids hfresh hg hd) _ _ _ _ hrs
+        simp only [Res.ok.injEq] at hox
+        subst hox
+        subst e
+        simpa [editOf] using hed
+
+private theorem editAt_self (x : Node) : ∀ p t, Spec.nodeAt p t = some x → Spec.editAt p (.replace x) t = some (some t) := by
+  intro p
+  induction p with
+  | nil => intro t h; simp [Spec.nodeAt] at h; subst h; simp [Spec.editAt]
+  | cons q p ih =>
+    obtain ⟨a, io⟩ := q
+    intro t h
+    cases io with
+    | none =>
+      simp only [Spec.nodeAt] at h
+      split at h
+      · rename_i c hg
+        simp only [Spec.editAt, hg, ih c h, Option.map_some]
+        rw [setAttr_getAttr t a _ hg]
+      · simp at h
+    | some i =>
+      simp only [Spec.nodeAt] at h
+      split at h
+      · rename_i cs hg
+        split at h
+        · rename_i c hc
+          simp only [Spec.editAt, hg, hc, ih c h, Option.map_some]
+          obtain ⟨pre, post, hs, hl⟩ := split_at cs i c hc
+          subst hs
+          rw [← hl, set_at_length, setAttr_getAttr t a _ hg]
+        · simp at h
+      · simp at h
+
+/-- **skip_at** — "raising the skip signal suppresses only that node's children and its leave call": the tree is
+    returned as it is (the calls are characterised by `skip_local` and `balanced`). -/
+theorem skip_at (T : Table) (hT : StepsDistinct T) (x t : Node) (p : List (String × Option Nat)) (fuel : Nat)
+    (o : Out Unit) (hr : ReachV T t p) (hnd : (idsNode t).Nodup) (hx : Spec.nodeAt p t = some x)
+    (h : visit T (actAt x.id fun n => .skip n) fuel t () = .ok o) :
+    o.ret = some t := by
+  obtain ⟨f', mx, ox, hox, hed⟩ := visit_edit T hT _ x t p fuel o hr hnd hx h
+  cases f' with
+  | zero => simp [visitM] at hox
+  | succ f' =>
+    simp only [visitM, actAt_enter_eq x.id _ x () rfl, Res.ok.injEq] at hox
+    subst hox
+    simp only [editOf, editAt_self x p t hx, Option.some.injEq] at hed
+    exact hed.symm
+
+/-! ### a decision procedure for `Reach` (so that "every reachable position" can be computed) -/
+
+def reachB (T : Table) : String → Node → List (String × Option Nat) → Bool
+  | _, _, [] => true
+  | m, t, (a, none) :: p =>
+    match T.methods.lookup m with
+    | none => false
+    | some steps =>
+      match steps.find? (fun st => st.attr == a) with
+      | none => false
+      | some st =>
+        st.applies t.kind && st.assign && st.shape == .one &&
+        (match t.getAttr a with
+         | some (.one (some c)) =>
+           (match resolve T st.target c.kind with
+            | .ok m' => reachB T m' c p
+            | .error _ => false)
+         | _ => false)
+  | m, t, (a, some i) :: p =>
+    match T.methods.lookup m with
+    | none => false
+    | some steps =>
+      match steps.find? (fun st => st.attr == a) with
+      | none => false
+      | some st =>
+        st.applies t.kind && st.assign && st.shape == .many &&
+        (match t.getAttr a with
+         | some (.many cs) =>
+           (match cs[i]? with
+            | some c =>
+              (match resolve T st.target c.kind with
+               | .ok m' => reachB T m' c p
+               | .error _ => false)
+            | none => false)
+         | _ => false)
+
+theorem reachB_sound (T : Table) : ∀ p m t, reachB T m t p = true → Reach T m t p := by
+  intro p
+  induction p with
+  | nil => intro m t _; trivial
+  | cons q p ih =>
+    obtain ⟨a, io⟩ := q
+    intro m t h
+    cases io with
+    | none =>
+      simp only [reachB] at h
+      split at h
+      · simp at h
+      · rename_i steps hm
+        split at h
+        · simp at h
+        · rename_i st hf
+          simp only [Bool.and_eq_true, beq_iff_eq] at h
+          obtain ⟨⟨⟨happ, hass⟩, hsh⟩, hrest⟩ := h
+          split at hrest
+          · rename_i c hg
+            split at hrest
+            · rename_i m' hres
+              have hmem := List.mem_of_find?_eq_some hf
+              have hattr : st.attr = a := by simpa using List.find?_some hf
+              exact ⟨steps, st, c, m', hm, hmem, hattr, happ, hass, hsh, hg, hres, ih m' c hrest⟩
+            · simp at hrest
+          · simp at hrest
+    | some i =>
+      simp only [reachB] at h
+      split at h
+      · simp at h
+      · rename_i steps hm
+        split at h
+        · simp at h
+        · rename_i st hf
+          simp only [Bool.and_eq_true, beq_iff_eq] at h
+          obtain ⟨⟨⟨happ, hass⟩, hsh⟩, hrest⟩ := h
+          split at hrest
+          · rename_i cs hg
+            split at hrest
+            · rename_i c hc
+              split at hrest
+              · rename_i m' hres
+                have hmem := List.mem_of_find?_eq_some hf
+                have hattr : st.attr = a := by simpa using List.find?_some hf
+                exact ⟨steps, st, cs, c, m', hm, hmem, hattr, happ, hass, hsh, hg, hc, hres, ih m' c hrest⟩
+              · simp at hrest
+            · simp at hrest
+          · simp at hrest
+
 end PyGql.Props.C18
